@@ -37,6 +37,7 @@ def _matrix(n, rnd, kind):
 
 
 class ATSP(Adapter):
+    reward_from_actions = True
     name = "atsp"
     module = "ATSP"
     pad_steps = 0
